@@ -24,6 +24,10 @@ type C10Op struct {
 	MutPos  int
 	MutVal  int
 	Implied bool
+	// Shape: "" = a well-formed write; otherwise a write that is defective in another way as well
+	// (put: noseq | nov | oversize | badsig ; announce_peer: noih | noport). A bad token must still mean
+	// silence; with a good token such a write is not C10's business.
+	Shape string
 }
 
 type C10Sc struct {
@@ -45,6 +49,10 @@ func genC10(t *rapid.T) C10Sc {
 	seen := map[string]bool{}
 	for len(sc.IPs) < nip {
 		s := genSrc(t, sc.Dual, "ip")
+		if len(sc.IPs) > 0 && rapid.Bool().Draw(t, "ip.related") {
+			// an address whose bytes are related to an earlier one's: a token must still be bound to the whole IP
+			s.IP = relatedIP(t, net.IP(sc.IPs[uniformInt(t, len(sc.IPs), "ip.relto")]), sc.Dual)
+		}
 		if seen[string(s.IP)] {
 			continue
 		}
@@ -76,10 +84,60 @@ func genC10(t *rapid.T) C10Sc {
 			op.MutPos = rapid.IntRange(0, 63).Draw(t, "op.mutpos")
 			op.MutVal = rapid.IntRange(1, 255).Draw(t, "op.mutval")
 			op.Implied = rapid.Bool().Draw(t, "op.implied")
+			if op.Method == "put" {
+				op.Shape = pick(t, "op.shape", "", "", "", "", "noseq", "nov", "oversize", "badsig")
+			} else {
+				op.Shape = pick(t, "op.shape", "", "", "", "", "noih", "noport")
+			}
 		}
 		sc.Ops = append(sc.Ops, op)
 	}
 	return sc
+}
+
+// relatedIP derives another source IP from ip: one bit or byte away, or (on a dual-stack socket) the
+// same four bytes placed elsewhere in an address of the other family.
+func relatedIP(t *rapid.T, ip net.IP, dual bool) kit.Hex {
+	out := append(net.IP(nil), ip...)
+	v4 := ip.To4()
+	kinds := []string{"lastbit", "firstbit", "byte"}
+	if dual && v4 != nil {
+		kinds = append(kinds, "v4-left", "v4-left", "v4-compat", "6to4", "nat64")
+	}
+	if dual && v4 == nil {
+		kinds = append(kinds, "v6-first4", "v6-last4")
+	}
+	switch pick(t, "ip.relkind", kinds...) {
+	case "lastbit":
+		out[len(out)-1] ^= 1
+	case "firstbit":
+		out[len(out)-4] ^= 0x80 // (of the IPv4 part when v4-mapped)
+		if v4 == nil {
+			out[len(out)-4] ^= 0x80
+			out[0] ^= 0x01
+		}
+	case "byte":
+		out[len(out)-1-uniformInt(t, 3, "ip.relbyte")] += byte(1 + uniformInt(t, 255, "ip.reldelta"))
+	case "v4-left": // aabb:ccdd::
+		out = make(net.IP, 16)
+		copy(out, v4)
+	case "v4-compat": // ::a.b.c.d
+		out = make(net.IP, 16)
+		copy(out[12:], v4)
+	case "6to4": // 2002:aabb:ccdd::
+		out = make(net.IP, 16)
+		out[0], out[1] = 0x20, 0x02
+		copy(out[2:], v4)
+	case "nat64": // 64:ff9b::a.b.c.d
+		out = make(net.IP, 16)
+		out[1], out[2], out[3] = 0x64, 0xff, 0x9b
+		copy(out[12:], v4)
+	case "v6-first4":
+		out = net.IP(append([]byte(nil), ip[:4]...)).To16()
+	case "v6-last4":
+		out = net.IP(append([]byte(nil), ip[12:]...)).To16()
+	}
+	return kit.Hex(out)
 }
 
 type issuedToken struct {
@@ -239,12 +297,32 @@ func runC10(sc C10Sc, c *kit.Case) *kit.Violation {
 			ih := make([]byte, 20)
 			ih[0], ih[1] = byte(oi), byte(tseq)
 			if op.Method == "announce_peer" {
-				kv = append(kv, BKV{K: "info_hash", V: bs(ih)}, BKV{K: "port", V: bint(int64(1000 + oi))})
+				if op.Shape != "noih" {
+					kv = append(kv, BKV{K: "info_hash", V: bs(ih)})
+				}
+				if op.Shape != "noport" {
+					kv = append(kv, BKV{K: "port", V: bint(int64(1000 + oi))})
+				}
 				if op.Implied {
 					kv = append(kv, BKV{K: "implied_port", V: bint(1)})
 				}
 			} else {
-				kv = append(kv, BKV{K: "v", V: bstr(fmt.Sprintf("value-%d-%d", oi, tseq))}, BKV{K: "seq", V: bint(0)})
+				val := fmt.Sprintf("value-%d-%d", oi, tseq)
+				if op.Shape == "oversize" {
+					val += string(make([]byte, 1100))
+				}
+				if op.Shape != "nov" {
+					kv = append(kv, BKV{K: "v", V: bstr(val)})
+				}
+				if op.Shape != "noseq" {
+					kv = append(kv, BKV{K: "seq", V: bint(0)})
+				}
+				if op.Shape == "badsig" {
+					kv = append(kv, BKV{K: "k", V: bs(make([]byte, 32))}, BKV{K: "sig", V: bs(make([]byte, 64))})
+				}
+			}
+			if op.Shape != "" && verdict != "mustnot" {
+				verdict = "unjudged" // otherwise defective as well: the token rule says nothing about it
 			}
 			if present {
 				kv = append(kv, BKV{K: "token", V: bstr(tokStr)})
@@ -310,6 +388,9 @@ func runC10(sc C10Sc, c *kit.Case) *kit.Violation {
 				if replied != effect {
 					return kit.Violatef("C10:inconsistent-outcome", "%s: replied=%v but effect=%v", what, replied, effect)
 				}
+			}
+			if op.Shape != "" {
+				c.Label("shape-" + op.Shape + "-" + verdict)
 			}
 			c.Label("use-" + op.Mut)
 			c.Label("verdict-" + verdict)
